@@ -7,6 +7,7 @@ import time
 from .. import common as C
 from . import pool as P
 from . import monitor as M
+from . import algomodel as A
 
 INSTANCES = {
     # name: (restriction, nets, lazy)
@@ -86,6 +87,8 @@ class Campaign:
         self.selftest = []
         self.distinct = set()
         self.level = "exploration"
+        self.explorations = []
+        self.conformance = {"validated": 0, "accepted": 0, "known_region": 0, "diverged": []}
 
     def run_instance(self, inst, jobs, settings_of=lambda job: {}, props=None, selftest=True):
         t0 = time.time()
@@ -121,6 +124,31 @@ class Campaign:
                                  "seed": g["job"]["sched"].get("seed"),
                                  "executions": [[e["w"], e["a"], e.get("t"), e.get("uid"), e.get("s", "")] for e in g["events"]
                                                 if e["a"] in ("start", "endrun", "prestart", "preend", "unset")][:40]})
+        # fine-grained conformance: a sample of the recorded executions must be behaviours of the algorithm model
+        nconf = getattr(self, "nconf", 4)
+        if nconf:
+            # the algorithm model covers the default reuse scope (whole run)
+            full = {"own", "swarm", "cluster", "shared"}
+            sample = [g for g in good if g["outcome"] == "done"
+                      and set(str(dict(inst.params, **g["job"].get("run_params", {})).get("pool_scope", "own swarm cluster shared")).split()) == full]
+            self.rng.shuffle(sample)
+            sample = sample[:nconf]
+            ver = A.validate_traces(os.path.join(self.work, "conf_" + inst.name), inst, sample)
+            objroots = {t for t, e in inst.const["tests"].items() if e["objroot"]}
+            for g, vd in zip(sample, ver):
+                self.conformance["validated"] += 1
+                if vd["accepted"]:
+                    self.conformance["accepted"] += 1
+                    continue
+                ne = vd.get("next_event") or {}
+                rp = dict(inst.params)
+                rp.update(g["job"].get("run_params", {}))
+                retries = str(rp.get("max_tries", "1")) not in ("1", "0")
+                if retries and ({ne.get("x"), ne.get("y"), ne.get("t")} & objroots):
+                    self.conformance["known_region"] += 1    # retries of an object creation: the known-findings region
+                else:
+                    self.conformance["diverged"].append({"instance": inst.name, "position": vd["position"], "of": vd["length"],
+                                                         "next_event": ne, "error": (vd.get("error") or "")[-200:]})
         if selftest:
             # the binding is real: a damaged copy of an accepted trace must be objected to
             clean = [t for i, t in enumerate(traces) if not any(f["trace"] == i for f in fails)]
@@ -133,18 +161,53 @@ class Campaign:
                         raise C.MachineryError("binding self-test: corrupted trace (%s) was accepted" % c[1])
         return good, traces, fails
 
+    def explore(self, inst_name, pools_kind="shared", maxbounce=1, invariants=None, maxtries=1, max_present=None, timeout=3000, expect_violation=False, statuses=("PASS", "FAIL")):
+        """exhaustive exploration of the algorithm model on an instance parsed by the current tree"""
+        inst = make_instance(inst_name).prepare()
+        mc = A.model_constants(inst)
+        if pools_kind == "shared":
+            pools = A.shared_pools(mc, max_present)
+        elif pools_kind == "empty":
+            pools = [{}]
+        elif pools_kind == "installed":
+            # object creation never needed: every install state is in the shared pool
+            inst_states = {s for t in mc["objroots"] for s in mc["sets"][t]}
+            pools = [dict(p, shared=set(p.get("shared", set())) | inst_states) for p in A.shared_pools({"states": [s for s in mc["states"] if s not in inst_states]}, max_present)]
+        else:
+            pools = A.residue_pools(mc, 1)
+        r, _ = A.explore(os.path.join(self.work, "explore_" + inst_name + "_" + pools_kind), inst, "MC_explore", pools, maxbounce=maxbounce,
+                         maxtries=maxtries, invariants=invariants or A.SAFETY, timeout=timeout, statuses=statuses)
+        rec = {"instance": inst_name, "workers": inst.nets, "lazy": inst.lazy, "test_classes": len(mc["tests"]), "initial_pools": len(pools),
+               "pools": pools_kind, "max_backoffs_per_worker": maxbounce, "max_tries": maxtries, "statuses": list(statuses),
+               "invariants": list(invariants or A.SAFETY), "ok": bool(r.ok), "violated": r.violated, "distinct_states": r.distinct,
+               "states_generated": r.generated, "wall_s": round(r.wall, 1), "timeout": "TIMEOUT" in r.out}
+        if not r.ok and not r.violated:
+            raise C.MachineryError("exploration of %s failed: %s" % (inst_name, (r.errors[:3] or r.out[-300:])))
+        if r.violated:
+            tr = r.trace()
+            rec["counterexample"] = {"length": len(tr), "bad": C.tlaval.plain(tr[-1][1].get("bad")) if tr else None,
+                                     "initial_pool": C.tlaval.plain(tr[0][1].get("pool")) if tr else None}
+        self.explorations.append(rec)
+        return rec
+
     def evidence(self, tier, wall, nviol, rule, assumptions, extra=None):
         cov = {"states": max(self.states, 1), "transitions": max(self.transitions, 1), "traces_validated_against_impl": self.ntraces,
                "samples": self.samples or [{"note": "none"}], "events_validated": self.nevents, "instances": self.instances,
                "binding_selftest": self.selftest, "harness_errors": len(self.harness_errors),
                "rule": rule + "; distinct_nontrivial = recorded executions with at least one test execution, distinct by their sequence of seam events"}
         cov.update({"evaluations": self.ntraces, "distinct_nontrivial": len(self.distinct)})
+        cov["algorithm_model"] = {"explorations": self.explorations, "trace_conformance": dict(self.conformance, diverged=self.conformance["diverged"][:5])}
+        if self.explorations and all(x["ok"] for x in self.explorations):
+            self.level = "model_checking"
+            cov["states"] = self.states + sum(x["distinct_states"] for x in self.explorations)
+            cov["transitions"] = self.transitions + sum(x["states_generated"] for x in self.explorations)
+            cov["exhaustive"] = True
         cov.update(extra or {})
         return C.write_evidence(self.pid, tier, self.seed, self.level, cov, assumptions, wall, nviol)
 
 
 def generic_run(pid, tier, seed, plan, make_jobs, signature, describe, settings_of=lambda job: {}, props=None, rule="", assumptions=(),
-                post=None):
+                post=None, explore_plan=None, nconf=None):
     """plan: list of (instance name, instance params, number of schedules); make_jobs(inst, rng, n) -> jobs"""
     t0 = time.time()
     C.repo_python_setup()
@@ -152,7 +215,20 @@ def generic_run(pid, tier, seed, plan, make_jobs, signature, describe, settings_
     work = C.build_dir(pid, wipe=True)
     v = C.Verdict(pid)
     camp = Campaign(pid, work, seed)
+    camp.nconf = (3 if tier == "quick" else 12) if nconf is None else nconf
     rng = random.Random(seed)
+    for ex in (explore_plan or []):
+        rec = camp.explore(**ex)
+        if rec["violated"] and not ex.get("expect_violation"):
+            # a model counterexample is not a verdict: the real code is explored more widely instead (DESIGN 5.4)
+            C.log("MODEL-COUNTEREXAMPLE (not a verdict; schedules on the real code are quadrupled): %s %s" % (rec["violated"], rec.get("counterexample")))
+            plan = [(a, b, c * 4) for a, b, c in plan]
+            rec["ok"] = False
+        elif ex.get("expect_violation"):
+            if not rec["violated"]:
+                raise C.MachineryError("vacuity guard: the model did not reproduce the known finding on %s" % ex["inst_name"])
+            rec["ok"] = True
+            rec["guard"] = "known finding reproduced by the model (expected)"
     for name, params, n in plan:
         inst = make_instance(name, params).prepare()
         jobs = make_jobs(inst, rng, n)
@@ -162,6 +238,8 @@ def generic_run(pid, tier, seed, plan, make_jobs, signature, describe, settings_
     for inst, res, f, tr in camp.failures:
         v.violation(signature(inst, res, f), describe(inst, res, f), {"instance": inst.name, "instance_params": inst.params, "job": res["job"], "failure": f})
     rc = v.finish()
+    for dv in camp.conformance["diverged"][:3]:
+        C.log("CONFORMANCE-DIVERGED (the algorithm model rejects a recorded execution; the property monitors decide): %s" % dv)
     camp.evidence(tier, time.time() - t0, len(v.violations), rule, list(assumptions) + [
         "environment model of DESIGN appendix C (a PASS/WARN end leaves the set states in the executing worker's own pool; scans answer "
         "from own + shared pool)", "test processes, state control and sessions substituted at the seams the selftests use"],
@@ -189,3 +267,26 @@ def replay(pid, path):
         print("monitor failure:", f)
     print("replay: %d failure(s) of %s" % (len(mine), pid))
     return 1 if mine else 0
+
+
+STRUCT = ["TypeOK", "PathContinuous"]
+
+
+def explore_plan(tier, inv, retries=False, removable=False, residue=False):
+    """exploration instances of the algorithm model for one property invariant"""
+    quick = tier == "quick"
+    plan = [dict(inst_name="tut1x2", pools_kind="shared", maxbounce=2, invariants=STRUCT + inv),
+            dict(inst_name="tut1x2e", pools_kind="shared", maxbounce=1, invariants=STRUCT + inv)]
+    if retries:
+        plan.append(dict(inst_name="tut1x2", pools_kind="installed", maxbounce=1, maxtries=2, invariants=STRUCT + inv))
+    if removable:
+        plan.append(dict(inst_name="guix2", pools_kind="installed", maxbounce=0, invariants=STRUCT + inv, statuses=("PASS",), max_present=1 if quick else None))
+    if not quick:
+        plan += [dict(inst_name="tut13x2", pools_kind="shared", maxbounce=0, max_present=1, invariants=STRUCT + inv, timeout=5000),
+                 dict(inst_name="tut1x1", pools_kind="shared", maxbounce=1, invariants=STRUCT + inv),
+                 dict(inst_name="guix2", pools_kind="empty", maxbounce=0, invariants=STRUCT + inv, timeout=5000)]
+        if retries:
+            plan.append(dict(inst_name="tut1x2", pools_kind="installed", maxbounce=1, maxtries=3, invariants=STRUCT + inv))
+        if residue:
+            plan.append(dict(inst_name="tut13x2", pools_kind="residue", maxbounce=0, invariants=inv, expect_violation=True, timeout=5000))
+    return plan
